@@ -54,6 +54,14 @@ theorem leaves_node_ne (d : NodeD) (p : Nat) (k : Kids) (h : k ≠ []) : (T.node
 
 theorem isLeaf_node (d : NodeD) (p : Nat) (k : Kids) : (T.node d p k).isLeaf = k.isEmpty := rfl
 
+theorem blk_node (e : EdgeD) (d : NodeD) (p : Nat) (k : Kids) (hk : k ≠ []) :
+    blk (e, .node d p k) = ⟨leavesL k, e, false⟩ :: splitsL k := by
+  unfold blk
+  simp only [leaves_node_ne _ _ _ hk, isLeaf_node, splitsBelow_node]
+  cases k with
+  | nil => exact absurd rfl hk
+  | cons a b => rfl
+
 /-! ## the relation "same split, same data" -/
 
 /-- same tips below (as a set with multiplicity), same length, support and kind -/
@@ -280,13 +288,48 @@ theorem Old.of_mem {L : List SplitE} {s : SplitE} (h : s ∈ L) : Old L s := ⟨
 theorem Old.mono {L L' : List SplitE} {s : SplitE} (h : Old L s) (hsub : ∀ x ∈ L, x ∈ L') : Old L' s := by
   obtain ⟨x, hx, hs⟩ := h; exact ⟨x, hsub x hx, hs⟩
 
+/-- number of inner branches (the lower node is not a tip) -/
+def ni (L : List SplitE) : Nat := (L.filter (fun s => !s.tip)).length
+
+theorem ni_append (a b : List SplitE) : ni (a ++ b) = ni a + ni b := by
+  simp [ni, List.filter_append]
+
+theorem ni_cons (s : SplitE) (r : List SplitE) : ni (s :: r) = (if s.tip then 0 else 1) + ni r := by
+  unfold ni
+  by_cases h : s.tip = true
+  · simp [List.filter_cons, h]
+  · have h' : s.tip = false := by simpa using h
+    simp [List.filter_cons, h']; omega
+
+theorem ni_blk_moved (et : EdgeD × T) : ni (blk (moved et)) = ni (blk et) := by
+  rw [blk_moved]; unfold blk; simp [ni_cons]
+
+theorem ni_map_moved (A : Kids) : ni (splitsL (A.map moved)) = ni (splitsL A) := by
+  induction A with
+  | nil => rfl
+  | cons et A ih => rw [List.map_cons, splitsL_cons, splitsL_cons, ni_append, ni_append, ih, ni_blk_moved]
+
+theorem ni_filter (p : EdgeD × T → Bool) (k : Kids) :
+    ni (splitsL (k.filter p)) + ni (splitsL (k.filter (fun et => !p et))) = ni (splitsL k) := by
+  induction k with
+  | nil => rfl
+  | cons et k ih =>
+    by_cases h : p et = true
+    · simp only [List.filter_cons, h, if_true, Bool.not_true, Bool.false_eq_true, if_false]
+      rw [splitsL_cons, splitsL_cons, ni_append, ni_append]; omega
+    · have h' : p et = false := by simpa using h
+      simp only [List.filter_cons, h', Bool.false_eq_true, if_false, Bool.not_false, if_true]
+      rw [splitsL_cons, splitsL_cons, ni_append, ni_append]; omega
+
 /-- what a result of `insK` on the kids `k` must satisfy -/
 def InsSpec (S : List String) (tot n : Nat) (len sup : Rat) (k : Kids) : Ins → Prop
   | .done k' =>
     Keeps (splitsL k) (splitsL k') ∧
     (∀ s' ∈ splitsL k', Old (splitsL k) s' ∨ IsNew S tot n len sup s') ∧
-    (leavesL k').Perm (leavesL k) ∧ (2 ≤ k.length → 2 ≤ k'.length)
+    (leavesL k').Perm (leavesL k) ∧ (2 ≤ k.length → 2 ≤ k'.length) ∧
+    ni (splitsL k') ≤ ni (splitsL k) + 1
   | .lift k' up =>
+    ni (splitsL k') + ni (splitsL up) = ni (splitsL k) ∧
     Keeps (splitsL k) (splitsL k' ++ splitsL up) ∧
     (∀ s' ∈ splitsL k' ++ splitsL up, Old (splitsL k) s') ∧
     (leavesL k' ++ leavesL up).Perm (leavesL k) ∧
@@ -295,7 +338,7 @@ def InsSpec (S : List String) (tot n : Nat) (len sup : Rat) (k : Kids) : Ins →
 
 theorem insSpec_same (S : List String) (tot n : Nat) (len sup : Rat) (k : Kids) :
     InsSpec S tot n len sup k (.done k) :=
-  ⟨Keeps.refl _, fun _ h => Or.inl (Old.of_mem h), List.Perm.refl _, fun h => h⟩
+  ⟨Keeps.refl _, fun _ h => Or.inl (Old.of_mem h), List.Perm.refl _, fun h => h, Nat.le_succ _⟩
 
 theorem mem_leavesL {a : String} {k : Kids} : a ∈ leavesL k ↔ ∃ et ∈ k, a ∈ et.2.leaves := by
   induction k with
@@ -384,15 +427,28 @@ theorem insK_nil_spec (S : List String) (hS : S.Nodup) (tot n : Nat) (htot : tot
         · exact hroot h
         · have : tot - c = 0 := by simpa using h
           exact S_below S hS pre hnd (by rw [hc]; omega)
-      rw [InsSpec, splitsL_append, splitsL_cons, leavesL_append, leavesL_cons]
-      simp only [splitsL, List.append_nil, leavesL, blk, splitsBelow_node, isLeaf_node,
-        leaves_node_ne _ _ _ hAne, leavesL_map_moved]
-      refine ⟨?_, ?_, hperm, ?_⟩
+      have hni : ni (splitsL (B ++ [(newEdge len sup, T.node ⟨"", []⟩ A.length (A.map moved))])) ≤
+          ni (splitsL pre) + 1 := by
+        have hf := ni_filter (fun et => decide (com S et.2 > 0)) pre
+        rw [hA, hB] at hf
+        rw [splitsL_append, splitsL_cons, ni_append, ni_append, blk_node _ _ _ _ hAne, ni_cons, ni_map_moved]
+        simp only [Bool.false_eq_true, if_false]
+        have : ni (splitsL ([] : Kids)) = 0 := rfl
+        omega
+      rw [InsSpec]
+      refine ⟨?_, ?_, ?_, ?_, hni⟩
       rotate_left 2
+      · rw [leavesL_append, leavesL_cons]
+        simp only [leavesL, List.append_nil, leaves_node_ne _ _ _ hAne, leavesL_map_moved]
+        exact hperm
       · intro _
         have : (if isRoot = true then 0 else 1) ≤ 1 := by split <;> omega
         simp only [List.length_append, List.length_cons, List.length_nil]
         omega
+      all_goals
+        rw [splitsL_append, splitsL_cons]
+        simp only [splitsL, List.append_nil, blk, splitsBelow_node, isLeaf_node,
+          leaves_node_ne _ _ _ hAne, leavesL_map_moved]
       · intro s hs
         obtain ⟨et, het, hse⟩ := mem_splitsL.1 hs
         rcases memAB et het with h | h
@@ -425,7 +481,10 @@ theorem insK_nil_spec (S : List String) (hS : S.Nodup) (tot n : Nat) (htot : tot
           have : B.length = 0 := by rw [h]; rfl
           omega
         rw [InsSpec]
-        refine ⟨?_, ?_, ?_, p3, ?_, hBne⟩
+        refine ⟨?_, ?_, ?_, ?_, p3, ?_, hBne⟩
+        · have hf := ni_filter (fun et => decide (com S et.2 > 0)) pre
+          rw [hA, hB] at hf
+          rw [ni_map_moved]; omega
         · intro s hs
           obtain ⟨et, het, hse⟩ := mem_splitsL.1 hs
           rcases memAB et het with h | h
@@ -459,23 +518,16 @@ theorem leavesL_len : ∀ k : Kids, k.length ≤ (leavesL k).length
 end
 
 
-theorem blk_node (e : EdgeD) (d : NodeD) (p : Nat) (k : Kids) (hk : k ≠ []) :
-    blk (e, .node d p k) = ⟨leavesL k, e, false⟩ :: splitsL k := by
-  unfold blk
-  simp only [leaves_node_ne _ _ _ hk, isLeaf_node, splitsBelow_node]
-  cases k with
-  | nil => exact absurd rfl hk
-  | cons a b => rfl
-
 /-- replacing one child by another one whose block keeps the old entries -/
 theorem insSpec_replace (S : List String) (tot n : Nat) (len sup : Rat) (pre r : Kids) (x x' : EdgeD × T)
     (hk : Keeps (blk x) (blk x'))
     (hn : ∀ s' ∈ blk x', Old (blk x) s' ∨ IsNew S tot n len sup s')
-    (hp : x'.2.leaves.Perm x.2.leaves) :
+    (hp : x'.2.leaves.Perm x.2.leaves) (hni : ni (blk x') ≤ ni (blk x) + 1) :
     InsSpec S tot n len sup (pre ++ x :: r) (.done (pre ++ x' :: r)) := by
   rw [InsSpec]
   simp only [splitsL_append, splitsL_cons, leavesL_append, leavesL_cons]
-  refine ⟨Keeps.append (Keeps.refl _) (Keeps.append hk (Keeps.refl _)), ?_, ?_, by simp⟩
+  refine ⟨Keeps.append (Keeps.refl _) (Keeps.append hk (Keeps.refl _)), ?_, ?_, by simp, by
+    simp only [ni_append]; omega⟩
   · intro s' hs'
     rcases List.mem_append.1 hs' with h | h
     · exact Or.inl (Old.of_mem (List.mem_append_left _ h))
@@ -542,7 +594,7 @@ theorem insK_spec (S : List String) (hS : S.Nodup) (tot n : Nat) (htot : tot = S
         | fail w => trivial
         | done k' =>
           rw [hres] at ih
-          obtain ⟨i1, i2, i3, _⟩ := ih
+          obtain ⟨i1, i2, i3, _, i5⟩ := ih
           have hk' : k' ≠ [] := by
             intro h; subst h
             have h1 := i3.length_eq
@@ -566,9 +618,11 @@ theorem insK_spec (S : List String) (hS : S.Nodup) (tot n : Nat) (htot : tot = S
               · exact Or.inr hnew
           · show (T.node d p k').leaves.Perm (T.node d p k).leaves
             rw [leaves_node_ne _ _ _ hk, leaves_node_ne _ _ _ hk']; exact i3
+          · rw [blk_node _ _ _ _ hk, blk_node _ _ _ _ hk', ni_cons, ni_cons]
+            simp only [Bool.false_eq_true, if_false]; omega
         | lift k' up =>
           rw [hres] at ih
-          obtain ⟨i1, i2, i3, i4, i5, hk'⟩ := ih
+          obtain ⟨i0, i1, i2, i3, i4, i5, hk'⟩ := ih
           show InsSpec S tot n len sup (pre ++ (e, .node d p k) :: r)
             (.done (pre ++ ((moved (e, .node d p k)).1,
               .node ⟨"", []⟩ 0 (up ++ [(newEdge len sup, .node d p k')])) :: r))
@@ -603,6 +657,8 @@ theorem insK_spec (S : List String) (hS : S.Nodup) (tot n : Nat) (htot : tot = S
                 · exact Or.inl ((i2 s' (List.mem_append_left _ h)).mono fun y hy => List.mem_cons_of_mem _ hy)
           · show (T.node ⟨"", []⟩ 0 (up ++ [(newEdge len sup, T.node d p k')])).leaves.Perm (T.node d p k).leaves
             rw [leaves_node_ne _ _ _ hk, leaves_node_ne _ _ _ hne, hleaves]; exact hperm
+          · rw [blk_node _ _ _ _ hk, blk_node _ _ _ _ hne, hspl, ni_cons, ni_cons, ni_append, ni_cons]
+            simp only [Bool.false_eq_true, if_false]; omega
       · rw [if_neg hside]; trivial
     · rw [if_neg hmix]
       have hnm : NotMixed S (e, .node d p k) := by
@@ -628,7 +684,8 @@ theorem insertSplit_spec (names : List String) (len sup : Rat) (t t' : T)
     (∀ s' ∈ t'.splits, Old t.splits s' ∨
       IsNew (names.filter t.tipNames.contains) (names.filter t.tipNames.contains).length
         t.tipNames.length len sup s') ∧
-    (leavesL t'.kids).Perm (leavesL t.kids) ∧ (2 ≤ t.kids.length → 2 ≤ t'.kids.length) := by
+    (leavesL t'.kids).Perm (leavesL t.kids) ∧ (2 ≤ t.kids.length → 2 ≤ t'.kids.length) ∧
+    ni t'.splits ≤ ni t.splits + 1 := by
   have htips : t.tipNames = leavesL t.kids := by
     unfold T.tipNames
     have : (t.kids.length == 1) = false := by simpa using hdeg
@@ -1066,7 +1123,7 @@ theorem insK_adds (S tips : List String) (hS : S.Nodup) (hS2 : 2 ≤ S.length) (
         exact List.mem_append_right _ (List.mem_append_left _ (List.mem_cons_of_mem _ hs'))
       | lift k' up =>
         rw [hres] at ispec
-        obtain ⟨_, _, _, i4, i5, hk'⟩ := ispec
+        obtain ⟨_, _, _, _, i4, i5, hk'⟩ := ispec
         show ∃ s ∈ splitsL (pre ++ ((moved (e, T.node d p k)).1,
             T.node ⟨"", []⟩ 0 (up ++ [(newEdge len sup, T.node d p k')])) :: r), _
         have hne : up ++ [(newEdge len sup, T.node d p k')] ≠ [] := by simp
